@@ -168,10 +168,8 @@ func toMismatches(x *explain, ev *event) []core.Mismatch {
 		}
 		return false
 	}
-	feat := ""
-	if hasFeat("deact") {
-		feat = "-nonmonotone-penalty-width"
-	} else if hasFeat("emptyglue") {
+	feat := "" // the "deact" feature no longer qualifies a signature: that defect is repaired (fix: 6dc7788)
+	if hasFeat("emptyglue") {
 		feat = "-empty-line-before-glue"
 	}
 	detail := func() string {
